@@ -78,7 +78,17 @@ def _run(ctx, chk, prog, tag):
             if f.name in HANDS_OUT_REFERENCE:
                 # only write sites: calls to cbor_incref
                 sites = eff.summ[f.name]["write_sites"].get(("param", pi), [])
-                ok = all(s.op == "call" and s.callee == "cbor_incref" for s in sites) and len(sites) <= 1
+                def is_incr(si):
+                    if si.op == "call" and si.callee == "cbor_incref":
+                        return True
+                    if si.op == "store":
+                        from ir import Inst as _I, Const as _C, apath as _ap
+                        v_, p_ = si.operands
+                        if isinstance(v_, _I) and v_.op == "add" and any(isinstance(o_, _C) and o_.v == 1 for o_ in v_.operands):
+                            o_ = [x for x in v_.operands if not isinstance(x, _C)]
+                            return bool(o_) and isinstance(o_[0], _I) and o_[0].op == "load" and _ap(o_[0].operands[0]) == _ap(p_)
+                    return False
+                ok = all(is_incr(s_) for s_ in sites) and len(sites) <= 1
                 chk.ob("C18.getter-exception", f.name, ok, where, fn=f.name,
                        detail=HANDS_OUT_REFERENCE[f.name] + ("" if ok else "; but writes via %s" % chain))
                 continue
